@@ -17,6 +17,10 @@ import RawPanelVerif.Lemmas.TotalOut
   `_panelTopology_svgbase=` + the flattened SVG and `_panelTopology_HWC=` + the flattened JSON, each one line whose
   white-space-free content equals that of the field (`Spec.Strip.checkPayload … = none`; JSON under the guard
   `JoinSafe`, implied by valid UTF-8).
+* `wire_faithful` — the stream clause as the driver evaluates it on `strip.wire` records (`Spec.Strip.checkWire`): for
+  LF-free produced strings, splitting "each string + LF" at LF gives back exactly those strings, so a writer that puts
+  each string + LF on the wire passes the check.  The two writers (ConnectToPanel, gorwp) are NOT modelled: that they
+  write exactly that is checked by execution only (net.c09 and strip.wire records).
 * `strip_structure`, `stripSvg_structure` — for every input, the output is the concatenation, in order, of the
   LF-separated lines of the input, each with only a sequence of white-space runes removed at its two ends (and, for
   SVG, one space appended where the line does not end in `>`): nothing but white space and the line feeds is lost,
@@ -167,6 +171,29 @@ theorem stripSvg_payload (s : Bytes) : Spec.Strip.checkPayload s (stripLineBreak
   unfold Spec.Strip.checkPayload
   simp [oneLine_of_no_lf _ (stripSvg_no_lf s), stripSvg_content s]
 
+
+/-- **Wire clause, faithful writer**: if the strings the encoder produced are LF-free (which `encoders_frame` proves of
+both encoder models) and a writer puts each of them on the wire followed by one line feed, the lines a panel reads by
+splitting the stream at line feeds are exactly the produced strings: the check the driver evaluates on `strip.wire`
+records holds. (The writers themselves - ConnectToPanel, gorwp - are checked by execution only.) -/
+theorem wire_faithful (produced : List Bytes) (h : ∀ l ∈ produced, (10 : UInt8) ∉ l) :
+    Spec.Strip.splitLF (produced.flatMap (fun l => l ++ [10])) = produced ++ [[]] ∧
+    Spec.Strip.checkWire produced produced = none := by
+  have hf := framing produced h
+  refine ⟨?_, ?_⟩
+  · unfold Spec.Strip.framing at hf
+    exact eq_of_beq hf
+  · unfold Spec.Strip.checkWire
+    have h1 : produced.any (fun o => !Spec.Strip.oneLine o) = false := by
+      rw [List.any_eq_false]
+      intro o ho
+      simp [oneLine_of_no_lf o (h o ho)]
+    simp [h1, hf]
+
+/-- non-vacuity: a `%` text as produced; a writer that rewrites it is rejected -/
+example : Spec.Strip.checkWire [asc "HWCt#13=|||Gain 50%|1"] [asc "HWCt#13=|||Gain 50%|1"] = none ∧
+    Spec.Strip.checkWire [asc "HWCt#13=|||Gain 50%!|(MISSING)1"] [asc "HWCt#13=|||Gain 50%|1"] = some "wire-differs-from-produced" := by
+  decide
 
 /-- non-vacuity of `strip_content` / `strip_content_utf8`: valid UTF-8 with multi-byte white-space runes at the line
 edges, which the flattening really removes; and the guard also admits strings that are not valid UTF-8 -/
